@@ -307,6 +307,29 @@ func isWriteBackOfRangeCopy(c *Ctx, w effWrite) bool {
 		if mt, ok := info.TypeOf(ix.X).Underlying().(*types.Map); !ok || !core.IsSpecType(mt.Elem(), "Response") {
 			return true
 		}
+		// M[k] = fix(M[k]): the entry, handed by value to a module function that returns its own parameter
+		if call, isCall := core.Unparen(as.Rhs[0]).(*ast.CallExpr); isCall && len(call.Args) == 1 && sameExpr(call.Args[0], ix) {
+			if g := c.P.Funcs[c.P.StaticCallee(fi, call)]; g != nil && g.Decl.Body != nil {
+				po := paramObj(g, 0)
+				all, nret := po != nil && !core.IsPointer(po.Type()), 0
+				ast.Inspect(g.Decl.Body, func(m ast.Node) bool {
+					if _, isLit := m.(*ast.FuncLit); isLit {
+						return false
+					}
+					if ret, isRet := m.(*ast.ReturnStmt); isRet {
+						nret++
+						if len(ret.Results) != 1 || core.ObjOf(c.info(g), ret.Results[0]) != types.Object(po) {
+							all = false
+						}
+					}
+					return true
+				})
+				if all && nret > 0 {
+					found = true
+				}
+			}
+			return true
+		}
 		vo := core.ObjOf(info, as.Rhs[0])
 		if vo == nil {
 			return true
